@@ -131,6 +131,8 @@ def run(ctx):
     for t in traces:
         if not verdicts[t["tid"]]["accept"]:
             continue
+        if len(t["runs"]) < 3 or not t["runs"][-1]["digests"]:
+            continue          # (every session of the group stopped with the same explicit error: nothing to corrupt)
         b = copy.deepcopy(t)
         b["runs"][-1]["digests"][0] = "0" * 20
         b["tid"] = len(bad) + 1
